@@ -12,7 +12,8 @@ from .. import variants as V
 PROPERTY = "C16"
 TITLE = "The symbol table behaves like a scoped map"
 DECIDES = ("Decided: the pairing of writers, removers and readers of Context over the entity "
-           "kinds, the two-maps-in-step discipline of _add_entity/_remove_entity, the "
+           "kinds, the two-maps-in-step discipline of _add_entity/_remove_entity (any further state attribute must be "
+           "touched by every method that changes the entity table), the "
            "inner-to-outer walk of get_decl, the ordered 'decls' kind and the three query modes "
            "of _get_declarations, all as shapes of src/ir/context.py.")
 NOT_DECIDED = ("the map laws over arbitrary add/remove histories (a data-structure property over "
